@@ -16,7 +16,7 @@ for d in sorted(os.listdir(SEEDED)):
     if subprocess.run(['git', '-C', os.environ.get('SEED_REPO', '/repo'), 'apply', '--check', os.path.join(p, 'patch.diff')], capture_output=True).returncode != 0:
         print('%-22s patch does not apply to the current tree: skipped' % d, flush=True)
         continue
-    refactor = d.startswith('refactor-')
+    refactor = d.startswith(('refactor-', 'preserve-'))
     props = ALL if refactor else json.load(open(os.path.join(p, 'meta.json'))).get('breaks', [])
     props = [x for x in props if x in ALL]
     subprocess.run([sys.executable, os.path.join(HERE, 'seedtest.py'), p] + props, capture_output=True, text=True)
